@@ -25,6 +25,9 @@ structure Target where
   qual : Qual
   /-- `assignment.Column.Name.L` (lower-cased by the parser) -/
   name : String
+  /-- the assigned value holds a sub-query with a FROM clause
+      (`checkNoSubqueryReadingTable(assignment.Expr)`, UPDATE only) -/
+  sub : Bool := false
   deriving DecidableEq, Repr
 
 inductive Verdict where
@@ -33,15 +36,19 @@ inductive Verdict where
   | rejectOther    -- another planning error
   deriving DecidableEq, Repr
 
+/-- the rest of an iteration once the column has passed: the assigned value
+    must not hold a sub-query that reads a table -/
+def checkValue (t : Target) : Verdict := if t.sub then .rejectOther else .accept
+
 /-- one iteration of the loop of `handleUpdateAssignmentList`; `key` is the
     rule's sharding column (stored lower-cased). -/
 def checkTarget (key : String) (t : Target) : Verdict :=
   match t.qual with
   | .none =>
     -- getSettedRuleByColumnName: a rule is found only if the name is the sharding column
-    if t.name = key then .rejectKey else .accept
-  | .table => if t.name = key then .rejectKey else .accept
-  | .alias => if t.name = key then .rejectKey else .accept
+    if t.name = key then .rejectKey else checkValue t
+  | .table => if t.name = key then .rejectKey else checkValue t
+  | .alias => if t.name = key then .rejectKey else checkValue t
   | .unknown => .rejectOther
   | .badDb => .rejectOther
 
@@ -78,10 +85,15 @@ def mergeExecResult (rs : List ExecResult) : ExecResult :=
 
 /-! ### Reference semantics: one database holding all rows -/
 
-/-- A row: its sharding value and the truth values of everything else. -/
+/-- A row: its sharding value and the truth values of everything else.
+    `id` names the row (the statement-level theorems of `Props/C05.lean` speak
+    about *which* rows are changed); `o` is the value of the other column in the
+    executable instances (ORDER BY and SET of the driver) — no theorem reads it. -/
 structure Row where
   key : Int
   env : Cond → Option Bool
+  id : Nat := 0
+  o : Int := 0
 
 /-- number of rows of a table the statement's WHERE selects -/
 def matching (c : Cond) (rows : List Row) : Nat :=
